@@ -15,7 +15,7 @@ META = {
     ),
     "anchors": ["abelian_core.AbelianArray.fuse", "abelian_core.AbelianArray.unfuse", "abelian_core._tensordot_blockwise", "abelian_core.AbelianArray.expand_dims", "abelian_core.AbelianArray.squeeze", "fermionic_core.FermionicArray._map_blocks", "fermionic_core.resolve_combined_oddpos", "linalg.svd_truncated", "linalg.qr"],
     "floors": {
-        "quick": {"evaluations": 15000, "distinct_nontrivial": 4000, "tables": {"programs": 600, "symmetry/Z4": 200, "kind/fermionic": 5000, "kind/generic": 2000}},
+        "quick": {"evaluations": 15000, "distinct_nontrivial": 4000, "tables": {"programs": 600, "symmetry/Z4": 200, "kind/fermionic": 5000, "kind/generic": 2000, "feature/fuse-group-of-4-or-more-axes": 1500}},
         "thorough": {"evaluations": 600000, "distinct_nontrivial": 100000, "tables": {"programs": 20000}},
     },
     "wall": {"quick": 300, "thorough": 1700},
@@ -82,6 +82,67 @@ def run_program(ctx, rng):
                 if e2:
                     ctx.violation(f"invalid-after-inplace:{name}", "; ".join(e2[:3]), {"op": name, "trace": trace[-12:]})
     ctx.count("programs", "completed")
+
+
+def many_legs_case(ctx, rng):
+    """Arrays with 5-8 legs (two or three charges each, a share of the blocks dropped, whole
+    branches dropped) put through fuse with every strategy, groups of 4-7 axes beside a
+    spectator leg or further groups, then unfused: every result must be a valid array."""
+    sr = ctx.sr
+    sym = rng.choice(["Z2", "Z2", "U1", "U1", "Z4", "Z2Z2", gen.pick_sym(rng)])
+    ferm = rng.random() < 0.4
+    wide = sym in ("U1", "Z4", "Z3") and rng.random() < 0.6
+    nd = rng.randint(5, 6) if wide else rng.randint(6, 8)
+    pool = gen.POOL[sym]
+    idx = []
+    for _ in range(nd):
+        cs = rng.sample(pool, min(len(pool), 3 if wide else 2))
+        idx.append(sr.BlockIndex({c: (rng.randint(1, 3) if rng.random() < 0.3 else 1) for c in sorted(cs)}, dual=rng.random() < 0.5))
+    x = gen.make_array(sr, rng, sym, idx, fermionic=ferm, values=gen.Values(rng, "int", rng.choice(["float64", "complex128"])), sparsity=rng.choice([0.0, 0.3, 0.3, 0.6]), label=5)
+    if not x.blocks:
+        return
+    axes = list(range(nd))
+    rng.shuffle(axes)
+    k = rng.randint(4, nd - 1)
+    long_ = tuple(axes[:k])
+    rest = axes[k:]
+    if rng.random() < 0.5 and len(x.blocks) > 2:
+        # drop one whole branch of the long group (all blocks sharing its leading charges)
+        s0 = rng.choice(sorted(x.blocks, key=repr))
+        pre = tuple(s0[a] for a in long_[:2])
+        for s_ in [s_ for s_ in x.blocks if tuple(s_[a] for a in long_[:2]) == pre]:
+            if len(x.blocks) > 1:
+                del x.blocks[s_]
+                x.phases.pop(s_, None) if ferm else None
+    groups = [long_]
+    if rest and rng.random() < 0.7:
+        g2 = tuple(rest[: rng.randint(1, len(rest))])
+        groups = [long_, g2] if rng.random() < 0.65 else [g2, long_]
+    mode = "auto" if ferm else rng.choice(["auto", "insert", "concat", "concat"])
+    wit = {"op": f"fuse(mode={mode})", "groups": [list(g) for g in groups], "x": describe(x)}
+    o = ctx.call(lambda: x.fuse(*groups) if ferm else x.fuse(*groups, mode=mode))
+    ctx.count("op", f"many-legs-fuse:{mode}")
+    if not o.ok:
+        ctx.violation(f"fuse-raises-{o.excname}", f"fuse{groups} mode={mode}: {o.exc!r}", wit)
+        return
+    ctx.evaluated()
+    errs = audit_any(o.value)
+    if errs:
+        ctx.violation("invalid-result:fuse", f"fuse{[list(g) for g in groups]} (mode={mode}) of a {nd}-leg array returned an invalid array: {'; '.join(errs[:3])}", wit)
+        return
+    ctx.count("feature", "fuse-group-of-4-or-more-axes")
+    if len(groups) > 1 and groups[0] is long_:
+        ctx.count("feature", "long-group-first-of-several")
+    ctx.nontrivial(("many-legs", struct_sig(x), tuple(groups), mode))
+    ou = ctx.call(lambda: o.value.unfuse_all())
+    ctx.count("op", "many-legs-unfuse_all")
+    if ou.ok:
+        ctx.evaluated()
+        errs = audit_any(ou.value)
+        if errs:
+            ctx.violation("invalid-result:unfuse_all", "; ".join(errs[:3]), wit)
+    else:
+        ctx.violation(f"unfuse_all-raises-{ou.excname}", repr(ou.exc), wit)
 
 
 def utils_case(ctx, rng):
@@ -178,5 +239,7 @@ def utils_case(ctx, rng):
 def run(ctx):
     for _, rng in ctx.cases("programs", ctx.budget(36000, 700000)):
         ctx.run_case(run_program, ctx, rng)
+    for _, rng in ctx.cases("many-legs", ctx.budget(2500, 50000)):
+        ctx.run_case(many_legs_case, ctx, rng)
     for _, rng in ctx.cases("utils", ctx.budget(15000, 300000)):
         ctx.run_case(utils_case, ctx, rng)
